@@ -1,6 +1,7 @@
 """Views (which part of an answer line a property compares), case classification for the evidence,
 known-finding predicates and Rust/Python-side law checkers."""
-import re
+import re, sys
+sys.setrecursionlimit(100000)   # protocol trees nest hundreds of levels (spine / chain streams)
 
 def v_full(s): return s.strip()
 def v_result(s): return s.split(' ; ')[0].strip()          # value / error, not the trace
